@@ -145,6 +145,11 @@ func (route *SendFirstMatch) Dispatch(buf []byte) {
 
 func (route *ConsistentHashing) Dispatch(buf []byte) {
 	conf := route.config.Load().(consistentHashingConfig)
+	if len(conf.Dests()) == 0 {
+		// all destinations were removed: there is nowhere to send to
+		log.Tracef("route %s has no destinations, dropping %s", route.key, buf)
+		return
+	}
 	if pos := bytes.IndexByte(buf, ' '); pos > 0 {
 		name := buf[0:pos]
 		dest := conf.Dests()[conf.Hasher.GetDestinationIndex(name)]
